@@ -150,14 +150,14 @@ CLAIMED["C11"] = (T_WP + " for the shared primitives and the line walk's index s
 EXT = {
  "C01": " Second build phase: the sweep's drivers are under contract as well - processIntersectList (crossings processed bottom-up by the modelled sort comparator, only neighbouring edges crossed, joins at a crossing need the crossing on the neighbour's line), buildIntersectList (only out-of-order pairs recorded), insertLocalMinimaIntoAEL (bound directions, left/right choice, winding inheritance), doHorizontal (span limit, advance), doMaxima / updateEdgeIntoAEL / isValidAelOrder (verified, no longer trusted), addPathsToVertexList (turn flags), executeInternal, areaTriangle, segsIntersect, and exact specifications of the small predicates.",
  "C02": " Second build phase: cleanCollinear (only redundant vertices leave a ring; a vertex the scan passes differs from both neighbours), processHorzJoins weld clause, convertHorzSegsToJoins / updateHorzSegment / horzSegSort / split / trimHorz, joins at a crossing, executeInternal's horizontal-segment lifetime.",
- "C04": " Second build phase: checkSplitOwner's visited-set recursion contract (every live listed split is searched, including the splits of a newly visited split; never its own owner), addLocalMaxPoly's tree-mode owner clauses, buildTree (open records never enter the tree: defect F45 found and repaired), exact Rect64 / NewRect64Invalid / getRealOutRec / isValidOwner / setOwner / getPrevHotEdge specifications.",
- "C05": " Second build phase: GetLowestPathInfo always finds a lowest path when some path has area (independent of the sign of the coordinates); a single point becomes the square of half-width ceil(delta).",
- "C06": " Second build phase: getSegmentIntersection end-point clauses (an end point on the line of a rectangle edge is a hit exactly when it lies on the edge), isClockwise, path1ContainsPath2, getPathRectClip, exact specifications of the edge-set / heading / overlap helpers; the 2^61 variants of CrossProduct and getSegmentIntersectPt also serve this property.",
- "C07": " Second build phase: the boolean D path is wired by local triples around the engine calls - BooleanOpPathsD / BooleanOpPolyTreeD build the engine for the requested precision (default 2) and add subject / clip as closed Subject / Clip paths; clipperD.AddPaths hands the integer engine exactly ScalePathsDToPaths64(paths, scale); clipperD.ExecuteOC divides every result path by the scale.",
- "C09": " Second build phase: intersectEdges~opencross (an open path is cut only at a closed edge that bounds a filled region under the fill rule; outside Union only at clip edges), buildTree keeps open records out of the tree (F45 repaired), addPathsToVertexList's open flags, clearSolutionOnly / reset keep hasOpenPaths.",
+ "C04": " Second build phase: checkSplitOwner's visited-set recursion contract (every live listed split is searched, including the splits of a newly visited split; never its own owner), addLocalMaxPoly's tree-mode owner clauses, buildTree (open records never enter the tree: defect F45 found and repaired), exact Rect64 / NewRect64Invalid / getRealOutRec / isValidOwner / setOwner / getPrevHotEdge specifications. Round 10: the tree entry points switch the engine to tree mode before the sweep and fill the caller's tree (mode variants, call-anchored); the tree and open-path arguments are replaced, not appended to (frame rule also listed here); getBounds listed here.",
+ "C05": " Second build phase: GetLowestPathInfo always finds a lowest path when some path has area (independent of the sign of the coordinates); a single point becomes the square of half-width ceil(delta). Round 10: GetLowestPathInfo's chosen path owns the lowest-then-leftmost vertex of all paths with area, whatever the order of the paths.",
+ "C06": " Second build phase: getSegmentIntersection end-point clauses (an end point on the line of a rectangle edge is a hit exactly when it lies on the edge), isClockwise, path1ContainsPath2, getPathRectClip, exact specifications of the edge-set / heading / overlap helpers; the 2^61 variants of CrossProduct and getSegmentIntersectPt also serve this property. Round 10: getNextLocation has its full functional contract (only vertices beyond the side being left are skipped; opposite side tested first, then the two neighbours; strict tests from inside); addCorner / addCornerLocation add exactly the corner between the two sides.",
+ "C07": " Second build phase: the boolean D path is wired by local triples around the engine calls - BooleanOpPathsD / BooleanOpPolyTreeD build the engine for the requested precision (default 2) and add subject / clip as closed Subject / Clip paths; clipperD.AddPaths hands the integer engine exactly ScalePathsDToPaths64(paths, scale); clipperD.ExecuteOC divides every result path by the scale. Round 10: RectClipPathD / RectClipLinesPathD equal the paths variants at the default precision; ExecuteWithScaleFunc passes every path to the caller's function at the inverse scale (call anchors on callbacks); ExecutePolyTreeD sets the tree's scale and divides open paths by it; the inflate stand-in also covers explicit arc tolerance and miter limit (bounded).",
+ "C09": " Second build phase: intersectEdges~opencross (an open path is cut only at a closed edge that bounds a filled region under the fill rule; outside Union only at clip edges), buildTree keeps open records out of the tree (F45 repaired), addPathsToVertexList's open flags, clearSolutionOnly / reset keep hasOpenPaths. Round 10: a contributing open end starts its output path at the minimum whether or not its first edge is horizontal (insertLocalMinimaIntoAEL); doMaxima resumes the scanbeam walk right behind the edge that stood left of the removed pair on entry; the open solution argument is replaced, not appended to (frame rule also listed here).",
  "C10": " Second build phase: single-point square of half-width ceil(delta) (loop step clause of doGroupOffset).",
  "C11": " Second build phase: the line walk starts at the second vertex after the boundary look-ahead (entry clause), getSegmentIntersection end-point clauses, getPathRectClipLine emits every ring node once in ring order.",
- "C12": " Second build phase: clearSolutionOnly / reset keep everything that was added and configured; reset sorts the minima bottom-up; a solution argument is never carved out of another caller-supplied slice (alias rule); AddPaths wrappers pass paths, type and flag unchanged; addReuseableData.",
+ "C12": " Second build phase: clearSolutionOnly / reset keep everything that was added and configured; reset sorts the minima bottom-up; a solution argument is never carved out of another caller-supplied slice (alias rule); AddPaths wrappers pass paths, type and flag unchanged; addReuseableData. Round 10: clipperBase.execute always clears tree mode before the sweep, the tree entry points always set it; GetLowestPathInfo does not depend on the order of the paths in a group (lowest-then-leftmost vertex rule).",
  "C13": " Second build phase: isClockwise overflow-free up to 2^61; GetLowestPathInfo independent of the sign of the coordinates; PerpendicDistFromLineSqr64 in rounded arithmetic.",
  "C14": " Second build phase: PointInPolygon's IsOn soundness is now proved for all polygons (at each of the three IsOn returns the point lies on the polygon edge being examined), with the scan invariants; exact specifications of the Rect64 / Point64 / absInt helpers; trimCollinear64Pass's step clauses also serve this property.",
  "C15": " Second build phase: multiplyUInt64's 128-bit identity also serves this property.",
